@@ -210,6 +210,19 @@ fn main() {
         cases.push((json!({"kind": "repeated-header", "copies": 90}), Case::Request { label: "rep".into(), raw: build_request("GET", "/r", &hv, None, None) }));
         let big = vec![b'h'; 30000];
         cases.push((json!({"kind": "long-header-value", "length": 30000}), Case::Request { label: "lhv".into(), raw: build_request("GET", "/r", &[("Host", b"h"), ("X-Long", &big)], None, None) }));
+        // requests a well-behaved client would not send but that are syntactically valid: no Host header, HTTP/1.0,
+        // an empty Host, two Host headers, a header without value
+        for (label, raw) in [
+            ("http-1.0-no-host", b"GET /plain HTTP/1.0\r\n\r\n".to_vec()),
+            ("http-1.1-no-host", b"GET /plain HTTP/1.1\r\n\r\n".to_vec()),
+            ("http-1.0-provision-no-host", b"GET /provision HTTP/1.0\r\nMetadata: true\r\n\r\n".to_vec()),
+            ("empty-host", b"GET /plain HTTP/1.1\r\nHost:\r\n\r\n".to_vec()),
+            ("two-hosts", b"GET /plain HTTP/1.1\r\nHost: a\r\nHost: b\r\n\r\n".to_vec()),
+            ("no-headers-post", b"POST /plain HTTP/1.1\r\nContent-Length: 0\r\n\r\n".to_vec()),
+            ("options-star", b"OPTIONS * HTTP/1.1\r\nHost: h\r\n\r\n".to_vec()),
+        ] {
+            cases.push((json!({"kind": "unusual-but-valid-request", "shape": label}), Case::Request { label: label.into(), raw }));
+        }
         cases.push((json!({"kind": "percent-and-odd-url"}), Case::Request { label: "odd".into(), raw: build_request("GET", "/a%zz%?&&==&%00", &[("Host", b"h")], None, None) }));
         cases.push((json!({"kind": "provision-with-odd-tick"}), Case::Request { label: "prov".into(), raw: build_request("GET", "/provision", &[("Host", b"h"), ("Metadata", b"true"), ("x-ms-azure-time_tick", b"\xff\xfe99999999999999999999999999999999999999999999")], None, None) }));
     }
@@ -444,7 +457,7 @@ fn main() {
     res.cov("distinct_nontrivial", nontrivial.len() as u64);
     res.cov("panics_recorded", panics_total);
     res.cov("exhaustive", true);
-    res.cov("rule", "caller command lines/exe names made of 2-, 3- and 4-byte UTF-8 characters behind 0..w-1 ASCII bytes (every alignment against the byte-offset cuts at 512/1024/4096) x allowed/denied; requests with each header-value byte (0x09, 0x7f, 0x80..0xff; quick: 6 representatives) single and repeated, URLs/queries of 1000..65000 bytes, 90 repeated headers, a 30000-byte header value; host replies to the key keeper's status poll over 9 content types x bodies (empty, 1-3 bytes, valid, multi-byte bodies at every alignment) x content-length / chunked with a 1- or 3-byte first chunk (odd UTF-16 frames) / a declared Content-Length of 2^63 or 2^40 with the connection closed; 16 rule documents with dangling, duplicate, missing and empty names in force while matching requests arrive; wake-up notifications to the key keeper at every 0.125 ms offset across its poll interval; the cases run in a supervised child process, so a death of the whole process (abort, allocation failure) is attributed to the case in progress; after every case: no panic anywhere in the process, the request got an HTTP response, and listener, /provision, key keeper and status task are still live".to_string());
+    res.cov("rule", "caller command lines/exe names made of 2-, 3- and 4-byte UTF-8 characters behind 0..w-1 ASCII bytes (every alignment against the byte-offset cuts at 512/1024/4096) x allowed/denied; requests with each header-value byte (0x09, 0x7f, 0x80..0xff; quick: 6 representatives) single and repeated, URLs/queries of 1000..65000 bytes, 90 repeated headers, a 30000-byte header value, requests without / with an empty / with two Host headers, HTTP/1.0, OPTIONS *; host replies to the key keeper's status poll over 9 content types x bodies (empty, 1-3 bytes, valid, multi-byte bodies at every alignment) x content-length / chunked with a 1- or 3-byte first chunk (odd UTF-16 frames) / a declared Content-Length of 2^63 or 2^40 with the connection closed; 16 rule documents with dangling, duplicate, missing and empty names in force while matching requests arrive; wake-up notifications to the key keeper at every 0.125 ms offset across its poll interval; the cases run in a supervised child process, so a death of the whole process (abort, allocation failure) is attributed to the case in progress; after every case: no panic anywhere in the process, the request got an HTTP response, and listener, /provision, key keeper and status task are still live".to_string());
     res.assume("a panic is attributed to the case during or directly after which it is recorded");
     std::process::exit(res.finish());
 }
